@@ -47,7 +47,6 @@ func (c *checkSchema) checkType(name string, typ schema.Type, ss map[string]sche
 		// Return an error with the full set of bytes of the root schema.
 		if documentError, ok := r.(errors.DocumentError); ok {
 			documentError.SetFile(typ.RootFile())
-			documentError.SetIndex(documentError.Index() + typ.Begin())
 			documentError.SetIncorrectUserType(name)
 			panic(documentError)
 		}
